@@ -68,6 +68,30 @@ def corpus(env, rng, which):
         if "root-dir-stale-volume" in which:
             ops += ["closedir $r", "closevol $v", "openroot $v -> $stale", "hasopen", "closedir $stale", "openroot #4242 -> $never", "closedir $never"]
         env.add_script("corpus%d" % j, path, (1, 4, 4), ops, 5000, (), meta)
+    if "fsinfo-location" in which:
+        # D34: a FAT32 boot sector whose BPB_FSInfo names the boot sector itself (which carries the three info-sector
+        # signatures) or a FAT sector / data block carrying them: must not mount; before the repair flush/close wrote
+        # the free count into that block
+        for j, where in enumerate(["boot", "fat", "data"]):
+            geo = fsgen.geometry(rng, None, ["f32_min"])
+            img, meta = fsgen.build_image(rng, geo, populate=1)
+            path, dev = env.new_image(img, "fsinfo%d" % j)
+            g = fatck.mount(dev, meta["slot"])
+            bs = bytearray(dev[g.lba])
+            rel = {"boot": 0, "fat": g.reserved + g.fat_size - 1, "data": g.data_end - g.lba - 1}[where]
+            if rel >= 65536:
+                continue
+            bs[48:50] = rel.to_bytes(2, "little")
+            dev[g.lba] = bytes(bs)
+            tb = bytearray(dev.get(g.lba + rel, fatck.ZERO))
+            tb[0:4] = b"RRaA"; tb[484:488] = b"rrAa"; tb[508:512] = b"\x00\x00\x55\xaa"
+            if where != "fat":
+                tb[488:496] = b"\xff" * 8
+            dev[g.lba + rel] = bytes(tb)
+            img.write(path, dev)
+            meta = dict(meta); meta["dev0"] = dev
+            ops = ["openvol %d -> $v" % meta["slot"], "openroot $v -> $r", "open $r %s RWC -> $f" % hx("N.TXT"), "write $f 700 3", "flush $f", "close $f"]
+            env.add_script("corpus-fsinfo-%s" % where, path, (1, 4, 4), ops, 5000, (), meta)
     if "maxsize" in which:
         # a file 256 bytes short of the 4 GiB - 1 limit (sparse: 65536 clusters of 64 KiB, all-zero data)
         import fatimg
@@ -375,6 +399,9 @@ def c04_writes(tr, k, g, prev, dev, sc):
     out = []
     op = " ".join(tr.ops[k][:3])
     cur = dict()
+    if g.fat32 and not (g.lba < g.info_block < g.fat_start) and any(idx == g.info_block for idx, _ in tr.writes.get(k, [])):
+        out.append("op %d (%s): free-space record written to block %d, which is not in the reserved region behind the boot sector (%d..%d)"
+                   % (k, op, g.info_block, g.lba + 1, g.fat_start - 1))
     for idx, data in tr.writes.get(k, []):
         old = cur.get(idx, prev.get(idx, fatck.ZERO))
         cur[idx] = data
@@ -439,6 +466,7 @@ def check_C04(run, replay=None):
     F.std_scenarios(env, rng, n // 3, prof, nops=(20, 50), img_kw=dict(second_partition=True), limits=(2, 4, 4))
     F.std_scenarios(env, rng, n // 3, prof, nops=(20, 50), img_kw=dict(free_left=1), want=["f16_min", "f16_slack", "f16_spc8", "f32_min", "f16_exact", "f32_exact"])
     F.std_scenarios(env, rng, n // 3, prof, nops=(20, 50))
+    corpus(env, rng, {"fsinfo-location"})
     env.run_all(writes=True)
     bad = 0
     for sc in env.scripts:
